@@ -111,9 +111,12 @@ Print Assumptions css_token_sequences.
    Colon, Semicolon, Comma, the six brackets, the five match operators, Column, CDO, CDC: exactly their bytes
    (fixed_tokens); Delim: one byte; Number: the number diagram num_text ([+-]? (digits ('.' digits)? | '.' digits)
    ([eE] [+-]? digits)?); Percentage: num_text followed by "%"; UnicodeRange: [uU] "+" and either 1..6 hex digits
-   and "?" (hex digits first), or two runs of 1..6 hex digits around "-" (ur_shape).
+   and "?" (hex digits first), or two runs of 1..6 hex digits around "-" (ur_shape); String: a quote, a string body
+   (plain bytes, escapes each followed inside the token by a byte it tolerates, backslash-line-break continuations)
+   and then the same quote, or nothing, or a lone backslash (the last two only at the end of the input)
+   (str_shape); BadString: a quote, a string body and a line-break byte (badstr_shape).
    MISSING (shaped ty = false, nothing is claimed): Ident, CustomPropertyName, Function, AtKeyword, Hash, Dimension
-   (its unit is a name), String, BadString, URL, BadURL - the types whose text can contain escapes. *)
+   (its unit is a name), URL, BadURL. *)
 Theorem css_tokens_shaped : forall d toks ty b, css_lex d = LexDone toks -> In (ty, b) toks ->
   shaped ty = true -> tok_shape ty b.
 Proof. exact css_tokens_shaped_proof. Qed.
